@@ -218,7 +218,10 @@ func wideFixedCases() []Case {
 		ops.Op{K: "mergeh", I: []int{2, 0, 1, 11}}, ops.Op{K: "merger", I: []int{2, 1, 2, 0, 9}},
 		ops.Op{K: "createtable", I: []int{11, 2, 5000}, B: []bool{true}}, ops.Op{K: "mergev", I: []int{3, 0, 10, 1}},
 		ops.Op{K: "image", Img: img(60), I: []int{0, 0, 0, 0}, F: []float64{0, 0}, S: []string{"", "", ""}}, ops.Op{K: "imgpos", I: []int{0, 1}, F: []float64{5, 5}},
-		ops.Op{K: "imgwrap", I: []int{0, 3}}, ops.Op{K: "imgresize", I: []int{0, 1}, F: []float64{40, 30}})
+		ops.Op{K: "imgwrap", I: []int{0, 3}}, ops.Op{K: "imgresize", I: []int{0, 1}, F: []float64{40, 30}},
+		// vertical merges set through the exported field: continuation cells with w:val="continue" and without w:val
+		ops.Op{K: "table", I: []int{4, 3, 6000}, Grid: [][]string{{"a", "b", "c"}, {"", "", "d"}, {"", "", "e"}, {"f", "g", "h"}}},
+		ops.Op{K: "vmergefields", I: []int{4, 0, 2, 0}, S: []string{""}}, ops.Op{K: "vmergefields", I: []int{4, 0, 3, 1}, S: []string{"continue"}})
 	all = append(all, c)
 
 	// 8. two documents built alternately, both with pictures, lists, tables and page settings
